@@ -221,8 +221,16 @@ def check_generated(case):
     # and the object is garbage-collected - whatever the library does at that moment, the file must not read as a system
     import gc
     nrec = len(case["records"])
+
+    def out_path():
+        # a re-run: the output path still holds the complete file of the previous run
+        p = env.fresh_path(".gro")
+        if case.get("rerun"):
+            with open(p, "wb") as f:
+                f.write(data)
+        return p
     for k in sorted(set([0, 1, nrec // 2, nrec - 1, nrec])):
-        apath = env.fresh_path(".gro")
+        apath = out_path()
         g = GroFile(apath, "w")
         try:
             with env.quiet():
@@ -248,7 +256,7 @@ def check_generated(case):
     if nrec >= 2:
         wide = [list(r) for r in case["records"]]
         wide[-1][6] = 12345.678
-        opath = env.fresh_path(".gro")
+        opath = out_path()
         g = GroFile(opath, "w")
         try:
             with env.quiet():
@@ -272,7 +280,7 @@ def check_generated(case):
         for k in sorted(set([1, len(case["records"]) - 1, len(case["records"]) + 1])):
             extra = k > len(case["records"])          # one record MORE than declared: close() refuses that as well
             short = dict(case, records=case["records"][:k] if not extra else case["records"])
-            fpath = env.fresh_path(".gro")
+            fpath = out_path()
             g = GroFile(fpath, "w")
             try:
                 with env.quiet():
@@ -298,7 +306,7 @@ def check_generated(case):
     return {"units": (n + n2, nt + nt2),
             "classes": ["declared" if case["declare"] else "backfilled", "vel" if case["vel"] else "novel",
                         "fmt:%s" % ("default" if case["format"] is None else "custom"),
-                        "crlf+lf" if case.get("crlf") else "lf"] +
+                        "crlf+lf" if case.get("crlf") else "lf", "over-previous-output" if case.get("rerun") else "fresh-output"] +
                        ["outcome:" + k for k in hist],
             "sample": {"n_atoms": len(case["records"]), "declare": case["declare"], "vel": case["vel"],
                        "format": case["format"], "file_bytes": len(data), "crash_states": n, "prefixes": n2,
@@ -311,6 +319,7 @@ def generated_case(draw, tier):
     limit = 300 if tier == "thorough" else 40
     case["records"] = case["records"][:limit]
     case["crlf"] = draw(st.integers(0, 2)) == 0
+    case["rerun"] = draw(st.booleans())
     # numbers beyond five digits are C13's subject; keep files plain here
     return case
 
